@@ -2,6 +2,7 @@
 from __future__ import annotations
 
 import copy
+import re
 
 from ..core import Discard, Violation, stable_hash
 from ..models import forth_model as fm
@@ -36,6 +37,7 @@ class Gen:
         self.outputs = [["y%d" % i, r.choice(fm.DTYPES)] for i in range(r.choice([0, 1, 1, 2]))]
         self.defs = []
         self.enabled = self.swarm()
+        self.hex_literals = r.random() < 0.3
         ndefs = r.choice([0, 0, 1, 1, 2, 3])
         budget = self.max_words
         for i in range(ndefs):
@@ -76,6 +78,12 @@ class Gen:
                 ["if", [["w", "1-"]] + (inner if r.random() < 0.3 else []) + [["recurse"]]]]
 
     def lit(self):
+        node = self._lit()
+        if self.hex_literals and node[1] >= 0 and self.r.random() < 0.3:
+            node.append(self.r.choice(["x", "x", "X"]))      # written as 0x1f / 0x1F
+        return node
+
+    def _lit(self):
         r = self.r
         if self.enabled["edge_literals"] and r.random() < 0.3:
             return ["lit", r.choice(EDGE32)]
@@ -406,10 +414,21 @@ RESERVED = [":", ";", "recurse", "variable", "input", "output", "halt", "pause",
 NOT_WORDS = ["nosuchword", "12abc", "0x", "0x1G", "1e5", "3.14", "--1", "7bitt->", "#", "!i->>", "loops"]
 
 
+MUST_REFUSE = ("append_not_a_word", "misspell_nbit")
+_NBIT = re.compile(r"^([#!]*)(\d+)(bit->)$")
+
+
 def gen_source_mutation(r, text):
     if r.random() < 0.15:
         return [["append_not_a_word", 0, r.choice(NOT_WORDS)]]
     toks = text.split(" ")
+    nbit = [i for i, t in enumerate(toks) if _NBIT.match(t)]
+    if nbit and r.random() < 0.4:
+        # a read word whose bit count is not a number: '5xbit->' is not the word '5bit->' (F108)
+        i = r.choice(nbit)
+        m = _NBIT.match(toks[i])
+        bad = r.choice([m.group(2) + "x", "+" + m.group(2), m.group(2) + ".0", "0x" + m.group(2), m.group(2) + "_"])
+        return [["misspell_nbit", toks[i], m.group(1) + bad + m.group(3)]]
     ops = []
     for _ in range(r.choice([1, 1, 2, 3])):
         kind = r.choice(["drop", "dup", "insert", "swap", "replace", "cut"])
@@ -422,6 +441,11 @@ def apply_source_mutation(text, ops):
     if ops and ops[0][0] == "append_not_a_word":
         return text.rstrip("\n") + "\n" + ops[0][2] + "\n"
     toks = text.split(" ")
+    if ops and ops[0][0] == "misspell_nbit":
+        # the first occurrence of the well-spelt word (comment texts, which shift positions, contain none)
+        if ops[0][1] in toks:
+            toks[toks.index(ops[0][1])] = ops[0][2]
+        return " ".join(toks)
     for kind, pos, word in ops:
         if not toks:
             break
@@ -560,6 +584,9 @@ def calls_at_pause(node, case, rec, opts, drv, srcb, src, prog, cap_calls, pause
         if not same_view(mv, vr):
             raise Violation("model", "state_with_calls_at_pauses_differs",
                             {"source": src, "calls_at_pause": cap_calls, "stage": stage, "diff(model,real)": diff_view(mv, vr)})
+    actions = [["run"]]      # what was done to h2, for the stepped twin below
+    last_call = None
+    finished = False
     try:
         merr = m2.run()
         err2, _ = node.fm_do(h2, node.FM_RUN)
@@ -576,6 +603,7 @@ def calls_at_pause(node, case, rec, opts, drv, srcb, src, prog, cap_calls, pause
                                      "diff(model,real)": {"done": [False, True]}})
             compare("pause %d" % k, merr, err2)
             if merr != "none" or m2.done:
+                finished = True
                 break
             k += 1
             for kk, word in cap_calls:
@@ -591,10 +619,13 @@ def calls_at_pause(node, case, rec, opts, drv, srcb, src, prog, cap_calls, pause
                 # paused": current_recursion_depth() is relative to the innermost call. The caller knows its word; here
                 # the model says how many resumes the word needs.)
                 err2 = node.fm_call(h2, word)
+                actions.append(["call", word])
+                last_call = len(actions)
                 for _ in range(inner):
                     if err2 != 0:
                         break
                     err2, _ = node.fm_do(h2, node.FM_RESUME)
+                    actions.append(["resume"])
                 rec.ticks += 1
                 rec.ev("call_at_pause", k, word, err2)
                 rec.probe("calls_at_pauses_compared")
@@ -605,6 +636,48 @@ def calls_at_pause(node, case, rec, opts, drv, srcb, src, prog, cap_calls, pause
                 break       # a called word changed the stack the program loops on: bounded, no verdict beyond here
             merr = m2.resume()
             err2, _ = node.fm_do(h2, node.FM_RESUME)
+            actions.append(["resume"])
+        if finished and last_call is not None:
+            # the same history up to and including the last call, then the rest - the called word if it paused, and the
+            # program it interrupted - under a seeded step/resume schedule instead of resumes only: same final state
+            sched = (case.get("schedules") or [[["step", 1]]])[0]
+            if not any(a[0] == "step" for a in sched):
+                sched = [["step", 1]] + list(sched)
+            v2 = view(err2, node.fm_state(h2))
+            h3 = drv.machine(srcb)
+            try:
+                err3 = 0
+                for a in actions[:last_call]:
+                    if a[0] == "run":
+                        err3, _ = node.fm_do(h3, node.FM_RUN)
+                    elif a[0] == "resume":
+                        err3, _ = node.fm_do(h3, node.FM_RESUME)
+                    else:
+                        err3 = node.fm_call(h3, a[1])
+                done_actions = 0
+                i = 0
+                cap = 20 * opts.get("forth_budget", 20000)
+                while err3 == 0 and not (node.fm_flags(h3) & 2):
+                    a = sched[i % len(sched)]
+                    i += 1
+                    if a[0] == "step":
+                        err3, done = node.fm_do(h3, node.FM_STEP, a[1])
+                        done_actions += max(done, 1)
+                    else:
+                        err3, _ = node.fm_do(h3, node.FM_RESUME)
+                        done_actions += 1
+                    if done_actions > cap:
+                        raise Violation("liveness", "stepping_makes_no_progress",
+                                        {"source": src, "calls_at_pause": cap_calls, "schedule": sched,
+                                         "state": node.fm_state(h3)})
+                v3 = view(err3, node.fm_state(h3))
+                if not same_view(v2, v3):
+                    raise Violation("schedule_independence", "stepped_after_call_differs",
+                                    {"source": src, "calls_at_pause": cap_calls, "schedule": sched,
+                                     "history": actions[:last_call], "diff(resumed,stepped)": diff_view(v2, v3)})
+                rec.probe("stepped_after_call_compared")
+            finally:
+                node.drop(h3)
     except fm.Budget:
         rec.probe("calls_at_pauses_budget")
     except fm.Unspecified:
@@ -903,13 +976,13 @@ def execute_illformed(node, case, rec, src):
     except NodeError as e:
         rec.ev("compile_error", e.cls)
         rec.probe("compile_error_reported")
-        if (case.get("mutate_source") or [[None]])[0][0] == "append_not_a_word":
+        if (case.get("mutate_source") or [[None]])[0][0] in MUST_REFUSE:
             rec.probe("not_a_word_refused")
         if e.cls == "nonstd":
             raise Violation("robustness", "nonstd_exception", {"source": src})
         return
     ms = case.get("mutate_source") or []
-    if ms and ms[0][0] == "append_not_a_word":
+    if ms and ms[0][0] in MUST_REFUSE and ms[0][2] in src.split():
         raise Violation("compile", "text_that_is_not_a_program_accepted",
                         {"source": src, "appended": ms[0][2], "decompiled": node.fm_decompiled(h).decode("latin-1")})
     rec.probe("mutated_source_compiled")
@@ -1250,7 +1323,7 @@ RULE = ("one run = seeded grammar-based program (AST, <= forth_max_words words) 
         "sequence of the program, schedule shape with step-burst classes, machine width, configuration class); "
         "non-trivial = at least 5 program words or at least one fault kind fired")
 REQUIRED_PROBES = {"quick": ["program_paused", "schedules_compared", "calls_compared", "compile_error_reported",
-                             "exhaustive_segmentation_sweeps", "calls_at_pauses_compared", "not_a_word_refused",
+                             "exhaustive_segmentation_sweeps", "calls_at_pauses_compared", "stepped_after_call_compared", "not_a_word_refused",
                              "faulted_machine_stays_put"],
                    "thorough": ["program_paused", "schedules_compared", "calls_compared", "compile_error_reported",
                                 "exhaustive_segmentation_sweeps",
